@@ -528,6 +528,112 @@ fn c15_conc_check(_ctx: &Ctx, c: &super::conc::C09Case) -> Report {
   rep
 }
 
+// C16, items arriving from two threads: delay(d) hands each item on d after receiving it,
+// also when another thread's item is being delayed at the same moment
+
+#[derive(Clone, Debug, Serialize, Deserialize)]
+pub struct C16ConcCase {
+  pub cc: super::conc::ConcCase,
+  pub d: u64,
+  /// gaps (ms) before each emission, per emitting thread
+  pub gaps: Vec<Vec<u64>>,
+  pub merged: bool,
+}
+
+fn c16_conc_strategy(_ctx: &Ctx) -> BoxedStrategy<C16ConcCase> {
+  let gaps = || prop::collection::vec(prop::sample::select(vec![3u64, 7, 9, 11, 15, 40]), 1..=3);
+  (prop::sample::select(vec![10u64, 25]), gaps(), gaps(), any::<bool>(), sched_strategy())
+    .prop_map(|(d, g0, g1, merged, sched)| {
+      let gaps = vec![g0, g1];
+      let src = |i: usize| Node::Src(0, Src::Hot(i));
+      let mut root = if merged {
+        Node::Un(Op::Delay(d), Box::new(Node::Nary(Comb::Merge, vec![src(0), src(1)])))
+      } else {
+        Node::Un(Op::Delay(d), Box::new(src(0)))
+      };
+      root.renumber();
+      let threads: Vec<Vec<Action>> = gaps
+        .iter()
+        .enumerate()
+        .map(|(t, gs)| {
+          let mut v = Vec::new();
+          for (j, g) in gs.iter().enumerate() {
+            v.push(Action::Advance(*g));
+            v.push(Action::Emit(if merged { t } else { 0 }, Ev::N(100 * (t as i64 + 1) + j as i64)));
+          }
+          v
+        })
+        .collect();
+      let case = Case {
+        root,
+        hots: vec![HotKind::Harness; if merged { 2 } else { 1 }],
+        hot_illformed: false,
+        conn: None,
+        conn_take: None,
+        recorders: vec![vec![]],
+        actions: vec![Action::Subscribe(0)],
+      };
+      C16ConcCase { cc: super::conc::ConcCase { case, threads, sched }, d, gaps, merged }
+    })
+    .boxed()
+}
+
+fn c16_conc_check(_ctx: &Ctx, c: &C16ConcCase) -> Report {
+  let r = super::conc::run_cc(&c.cc, 500);
+  let mut rep = Report::ok();
+  rep.classes.push(if c.merged { "delay-after-merge".into() } else { "delay-of-one-hot-source".into() });
+  rep.sample = Some(super::conc::render_cc(&c.cc, &r));
+  let fail = |m: String| Some(format!("{} | {}", m, super::conc::render_cc(&c.cc, &r)));
+  use arx_rt::Kind::*;
+  match r.outcome.kind {
+    Done | Quiescent => {}
+    ref k => {
+      if let Some(p) = crate_panic(&r.outcome) {
+        rep.fail = fail(p);
+        return rep;
+      }
+      rep.classes.push(format!("aborted:{:?}", k));
+      return rep;
+    }
+  }
+  // delay runs on the emitting thread: the j-th item of a thread is emitted after its gaps
+  // and the j delays before it, and handed on d later
+  let mut expected: Vec<(i64, u64)> = Vec::new();
+  let mut overlap = false;
+  let mut windows: Vec<(u64, u64)> = Vec::new();
+  for (t, gs) in c.gaps.iter().enumerate() {
+    let mut now = 0u64;
+    for (j, g) in gs.iter().enumerate() {
+      now += *g;
+      expected.push((100 * (t as i64 + 1) + j as i64, now + c.d));
+      if windows.iter().any(|(a, b)| now < *b && now + c.d > *a) && t == 1 {
+        overlap = true;
+      }
+      if t == 0 {
+        windows.push((now, now + c.d));
+      }
+      now += c.d;
+    }
+  }
+  rep.nontrivial = overlap;
+  if overlap {
+    rep.classes.push("two-items-being-delayed-at-once".into());
+  }
+  let mut got: Vec<(i64, u64)> = r.log.recs[0]
+    .iter()
+    .filter_map(|e| match &e.k {
+      Rk::N(p) => Some((p.as_i64(), e.vt / MS)),
+      _ => None,
+    })
+    .collect();
+  got.sort();
+  expected.sort();
+  if got != expected {
+    rep.fail = fail(format!("delay({}) handed on (item, ms) {:?}, expected {:?}", c.d, got, expected));
+  }
+  rep
+}
+
 pub fn properties() -> Vec<Property> {
   vec![
     Property {
@@ -541,9 +647,12 @@ pub fn properties() -> Vec<Property> {
     },
     Property {
       id: "C16",
-      rule: "cases = kind in {interval.take(n), interval unsubscribed between ticks, timer, delay, timeout, sample, debounce, time_interval} x period in {10, 25} ms x gap scripts from {3,7,9,11,15,40} ms (never equal to the period) x ending x generated schedule; oracle = (virtual time, event) pairs equal the timing definition (sample/debounce: strictly increasing selection of source items; sample exact when no tick coincides with an emission); non-trivial = >= 3 timed events",
+      rule: "cases = kind in {interval.take(n), interval unsubscribed between ticks, timer, delay, timeout, sample, debounce, time_interval} x period in {10, 25} ms x gap scripts from {3,7,9,11,15,40} ms (never equal to the period) x ending x generated schedule; oracle = (virtual time, event) pairs equal the timing definition (sample/debounce: strictly increasing selection of source items; sample exact when no tick coincides with an emission); non-trivial = >= 3 timed events; two_threads: delay(d) over one hot source or a merge of two, fed by two emitting threads with generated gaps - every item is handed on exactly d after it was emitted, also while another thread's item is being delayed",
       assumptions: vec!["virtual clock owned by the runtime (thread::sleep / Instant redirected)", "timeout arms its timer after the first item (as the statement words it)"],
-      subs: vec![mk_sub("clock", (1000, 20_000), c16_strategy, c16_check)],
+      subs: vec![
+        mk_sub("clock", (1000, 20_000), c16_strategy, c16_check),
+        mk_sub("two_threads", (300, 6_000), c16_conc_strategy, c16_conc_check),
+      ],
     },
   ]
 }
